@@ -489,4 +489,28 @@ theorem stateAfter_live_iff : ∀ (es : List FEv) (s : FSt), s.live = true →
         rw [hstep] at this; cases this
       simp [this]
 
+/-! ### sequences without failures -/
+
+theorem knowFrom_fin (es : List Nat) : ∀ (K : Know), K.fa = [] →
+    (knowFrom K (es.map FEv.fin)).fa = [] ∧ ∀ a, (knowFrom K (es.map FEv.fin)).fi.contains a = (K.fi.contains a || es.contains a) := by
+  induction es with
+  | nil => intro K h; exact ⟨h, fun a => by simp [knowFrom]⟩
+  | cons e es ih =>
+    intro K h
+    simp only [List.map_cons, knowFrom_cons]
+    have hupd : (K.upd (.fin e)).fa = [] ∧ ∀ a, (K.upd (.fin e)).fi.contains a = (K.fi.contains a || a == e) := by
+      simp only [Know.upd, h, List.contains_nil, Bool.false_or]
+      split
+      · rename_i hc
+        refine ⟨h, fun a => ?_⟩
+        by_cases hae : a = e
+        · subst hae; rw [hc]; rfl
+        · have : (a == e) = false := by simpa using hae
+          rw [this, Bool.or_false]
+      · refine ⟨by simpa using h, fun a => ?_⟩
+        simp only [List.contains_cons, Bool.or_comm]
+    obtain ⟨h1, h2⟩ := ih (K.upd (.fin e)) hupd.1
+    refine ⟨h1, fun a => ?_⟩
+    rw [h2 a, hupd.2 a, List.contains_cons, Bool.or_assoc]
+
 end NemoVerif.GroupFlow
